@@ -89,8 +89,19 @@ def run(ctx):
         if not ctx.quick:
             vlib.tlc_mc(ctx, "SnowVMRestart_MC", "SnowVMRestart_MC_intended.cfg", label="intended")
     scenarios = ctx.pick(20, 90)
-    rc, out = vlib.go_driver(ctx, PKG, "^TestVerifCrashRecord$", files=FILES, timeout=1500,
-                             env={"VERIF_SCENARIOS": scenarios, "VERIF_BLOCKS": ctx.pick(5, 8), "VERIF_PAR": 8})
+    for attempt in (1, 2):
+        # the reference chain is built with vmtest helpers that give the builder 1 s to react: on an overloaded machine the
+        # harness itself can time out, so one retry before giving up (a harness failure is never a verdict)
+        outdir = os.path.join(ctx.work, "out")
+        if os.path.isdir(outdir):
+            for f in os.listdir(outdir):
+                if f.endswith(".ndjson") or f == "stats.json":
+                    os.remove(os.path.join(outdir, f))
+        rc, out = vlib.go_driver(ctx, PKG, "^TestVerifCrashRecord$", files=FILES, timeout=1500,
+                                 env={"VERIF_SCENARIOS": scenarios, "VERIF_BLOCKS": ctx.pick(5, 8), "VERIF_PAR": 8})
+        if rc == 0:
+            break
+        vlib.log("crash driver attempt %d failed (harness):\n%s" % (attempt, out[-1500:]))
     if rc != 0:
         raise vlib.Infra("crash driver failed:\n" + out[-3000:])
     files = vlib.scenario_files(ctx, "sc")
